@@ -83,6 +83,71 @@ def main(tier):
                         ck.ok("R-C12-2", key)
                 if node.get("k") == "Call" and node.get("callee", "").startswith("omp_get_thread_num"):
                     ck.undecide("R-C12-2", "%s @%s" % (qn, ir.locstr(node)), "%s reads omp_get_thread_num(): units of work are not threads in this analysis, a thread-id dependent value cannot be decided" % qn)
+    # the declared reduction operator is the operation the loop body applies to the reduction variable (otherwise the
+    # per-thread partial results are combined with the wrong operation as soon as the loop really runs in parallel)
+    def body_ops(body, vid):
+        """set of combining operations the body applies to variable vid: '+', '*', '-', 'max', 'min', or '?<text>'"""
+        ops = set()
+        for s_, guards in structq.stmts_with_guards(body):
+            for e_ in structq.exprs_of_stmt(s_):
+                for n_ in ir.walk(e_):
+                    tgt = None
+                    if n_.get("k") == "Assign" and n_["a"].get("k") == "Ref" and n_["a"].get("id") == vid:
+                        op = n_.get("op")
+                        if op in ("+=", "-=", "*="):
+                            ops.add(op[0] if op != "-=" else "+")
+                            continue
+                        rhs = n_["b"]
+                        while rhs.get("k") in ("Paren", "Cast") and rhs.get("e"):
+                            rhs = rhs["e"]
+                        if rhs.get("k") == "Call" and conc_strip(rhs.get("callee", "")) in ("std::max", "std::min", "std::fmax", "std::fmin", "fmax", "fmin"):
+                            ops.add("max" if "max" in rhs["callee"] else "min")
+                            continue
+                        if rhs.get("k") == "Bin" and rhs.get("op") in ("+", "*") and any(x.get("k") == "Ref" and x.get("id") == vid for x in (rhs["a"], rhs["b"])):
+                            ops.add(rhs["op"])
+                            continue
+                        # plain assignment under a guard comparing a candidate with the variable: a running max/min
+                        got = None
+                        for cond, pol, _ in guards:
+                            c_ = cond
+                            while c_.get("k") == "Paren":
+                                c_ = c_["e"]
+                            if c_.get("k") == "Bin" and c_.get("op") in (">", ">=", "<", "<="):
+                                a_is = c_["a"].get("k") == "Ref" and c_["a"].get("id") == vid
+                                b_is = c_["b"].get("k") == "Ref" and c_["b"].get("id") == vid
+                                if a_is or b_is:
+                                    greater = c_["op"] in (">", ">=")
+                                    # (cand > var) true  -> max ; (var > cand) true -> min
+                                    is_max = (greater and b_is) or (not greater and a_is)
+                                    if pol is False:
+                                        is_max = not is_max
+                                    got = "max" if is_max else "min"
+                        ops.add(got or "?plain assignment")
+        return ops
+
+    from gmg.conc import strip_targs as conc_strip
+    OPNAME = {"operator+": "+", "+": "+", "operator*": "*", "*": "*", "operator-": "+", "-": "+", "max": "max", "min": "min"}
+    for qn, fns in whole.functions.items():
+        for f in fns:
+            for node in ir.walk(f["body"]):
+                if node.get("k") != "Omp":
+                    continue
+                for c in node.get("clauses", []):
+                    if c.get("ck") != "reduction":
+                        continue
+                    for v in c.get("vars", []):
+                        key = "reduction(%s:%s) in %s" % (c.get("op"), v.get("name"), qn)
+                        ck.instance("R-C12-2", key)
+                        want = OPNAME.get(c.get("op"))
+                        ops = body_ops(node["body"], v.get("id")) if node.get("body") is not None else set()
+                        if want is None:
+                            ck.undecide("R-C12-2", key, "reduction operator %s outside the rule's vocabulary" % c.get("op"))
+                        elif ops != {want}:
+                            ck.violation("R-C12-2", "%s:reduction-operator" % qn.split("<")[0], ir.locstr(node),
+                                         "%s declares reduction(%s : %s) but the loop body combines %s with %s: the per-thread partial results are merged with the wrong operation whenever the loop runs in parallel" % (
+                                             qn, c.get("op"), v.get("name"), v.get("name"), sorted(ops) or "nothing"))
+                        else:
+                            ck.ok("R-C12-2", key, sample={"kernel": qn, "clause": "reduction(%s : %s)" % (c.get("op"), v.get("name")), "body applies": want})
     # call sites of reduction kernels: result must stay scalar
     cg = structq.CallGraph(whole)
     for rf in sorted(red_fns):
